@@ -231,6 +231,7 @@ func NewHeaderVersion(param, key string, errlog func(error), version ...string) 
 	if key == "" {
 		key = "version"
 	}
+	key = strings.ToLower(key) // mime.ParseMediaType 返回的参数名都是小写
 
 	if errlog == nil {
 		errlog = func(err error) { log.Println(err) }
@@ -239,7 +240,7 @@ func NewHeaderVersion(param, key string, errlog func(error), version ...string) 
 	return &headerVersion{
 		paramName: param,
 		acceptKey: key,
-		versions:  version,
+		versions:  slices.Clone(version),
 		errlog:    errlog,
 	}
 }
@@ -256,7 +257,10 @@ func (v *headerVersion) Match(r *http.Request, ctx *types.Context) bool {
 		return false
 	}
 
-	ver := ps[v.acceptKey]
+	ver, found := ps[v.acceptKey]
+	if !found { // 没有指定版本号与版本号为空是两回事
+		return false
+	}
 	for _, vv := range v.versions {
 		if vv == ver {
 			if v.paramName != "" {
